@@ -39,10 +39,7 @@ def inject(args):
         w = W.World(srv, mcfg)
         w.start()
         for a in actions[:p]:
-            if a[0] == "connect":
-                w.connect(**a[1])
-            elif a[0] == "act":
-                w.act(a[1], a[2])
+            common.apply_action(w, a)
             if w.dead or w.violations:
                 return out  # the prefix itself misbehaves: that is another property's business
         live = [cid for cid, c in w.model.conn.items() if cid != 0 and c["nick"] and cid in w.clients]
